@@ -284,6 +284,19 @@ def run(chk):
     chk.ob("C19.R5", where, "both-layouts", ok,
            "with a 'Cards' level the contests of all cards are concatenated in order; otherwise the version's own 'Contests' are used; "
            "every contest is then processed", node=kloops[0] if kloops else L, strength="N")
+    # R6: the directory import is the per-file import applied to every export file with the same options
+    aud.same_name_arguments(chk, "C19.R6", DOM, "Dominion.read_cvrs_directory", "Dominion.read_cvrs", "the directory reader delegates per file")
+    rd = chk.fn(DOM, "Dominion.read_cvrs_directory")
+    loops = [l for l in rd.body if isinstance(l, ast.For)]
+    ext = [c for c in ast.walk(rd) if isinstance(c, ast.Call) and isinstance(c.func, ast.Attribute) and c.func.attr in ("extend", "append")]
+    rets = [r for r in walk_local(rd) if isinstance(r, ast.Return)]
+    ok = len(loops) == 1 and "sorted(glob.glob(" in norm(loops[0].iter) and len(ext) == 1 and ext[0].func.attr == "extend" \
+        and parent(parent(ext[0])) is loops[0] and len(rets) == 1 and norm(rets[0].value) == norm(ext[0].func.value) \
+        and not [x for x in walk_local(loops[0]) if isinstance(x, (ast.Break, ast.Continue, ast.Return))]
+    chk.ob("C19.R6", f"{DOM}:Dominion.read_cvrs_directory", "every-file-in-sorted-order", ok,
+           "the records of every export file of the directory, in sorted file-name order, are concatenated and returned",
+           node=rd, strength="N")
+
 
 
 def norm_src(node):
